@@ -111,17 +111,23 @@ def gen_mux(rng, tier, long_run=False):
             meta['lang'] = list(rng.choice(['eng', 'spa', 'und', 'zho']).encode())
         cfg['meta'] = meta
     nv = rng.randrange(2000, 20001) if long_run else rng.randrange(1, 12 if tier == 'quick' else 40)
-    cadence = rng.choice([9000, 9009, 11261, 'vfr'])
+    cadence = rng.choice([9000, 9009, 11261, 'vfr', 'ntsc24', 'ntsc60'])
     t0 = rng.choice([0, 0, 270000, rng.randrange(0, 100000)])
     reorder = (not long_run) and rng.random() < 0.5
     slots = reorder_groups(rng, nv) if reorder else list(range(nv))
     times = []
     t = t0
     for i in range(nv):
+        if cadence == 'ntsc24':
+            times.append(t0 + (i * 45045 + 2) // 4)        # 1001/24000 s = 11261.25 thirds of a tick per frame
+            continue
+        if cadence == 'ntsc60':
+            times.append(t0 + (i * 9009 + 1) // 2)         # 1001/60000 s = 4504.5 thirds per frame
+            continue
         times.append(t)
         t += cadence if cadence != 'vfr' else rng.randrange(2, 40000)
     delay = rng.choice([0, max(abs(slots[i] - i) for i in range(nv))]) if reorder else 0
-    step = cadence if cadence != 'vfr' else 9000
+    step = cadence if isinstance(cadence, int) else (11261 if cadence == 'ntsc24' else 4504 if cadence == 'ntsc60' else 9000)
     vcalls = []
     maxsz = 8 if long_run else (60 if tier == 'quick' else 200)
     for i in range(nv):
@@ -271,6 +277,13 @@ def gen_adts(rng, tier):
     for sfi in range(16):
         for chan in range(8):
             frames.append(adts_raw(20, 1, 20, sfi=sfi, chan=chan))
+    # number_of_raw_data_blocks_in_frame (low two bits of byte 6) and buffer fullness bits, with and without CRC
+    for pa in (0, 1):
+        for b6 in (0xfc, 0xfd, 0xfe, 0xff, 0x00, 0x03):
+            for fl in (9, 10, 12, 16, 30):
+                f = adts_raw(fl, pa, fl + 2)
+                f[6] = b6
+                frames.append(f)
     for b1 in (0xf1, 0xf9, 0xf3, 0xf5, 0xf7, 0xe1, 0x71):
         f = adts_raw(20, 1, 20)
         f[1] = b1
